@@ -1,6 +1,7 @@
 import asyncio
 import functools
 import inspect
+import opcode
 import sys
 import types
 from asyncio import Future
@@ -116,6 +117,40 @@ def coro_get_frame(coro: Suspendable) -> FrameType:
     return cast(FrameType, _coro_getattr(coro, "frame"))
 
 
+_RETURN_GENERATOR = opcode.opmap.get("RETURN_GENERATOR", -1)
+
+
+def _asyncgen_state(agen: AsyncGenerator[Any, Any]) -> str:
+    """
+    The state of an async generator, as `inspect.getgeneratorstate()` would
+    report it for a generator.  `ag_await` and `ag_running` cannot tell it:
+    a generator paused at a `yield` has neither, exactly like a new one, and
+    `ag_running` stays set while the generator is suspended in an `await`.
+    (`inspect.getasyncgenstate()` reports the latter as AGEN_RUNNING.)
+    """
+    frame = agen.ag_frame
+    if frame is None:
+        return inspect.GEN_CLOSED
+    if frame.f_back is not None:
+        # only the frame of a generator which is being executed has a caller
+        return inspect.GEN_RUNNING
+    if sys.version_info >= (3, 12):  # pragma: no cover
+        if agen.ag_suspended:
+            return inspect.GEN_SUSPENDED
+        # not suspended, not executing its own code, yet awaiting something:
+        # it is busy throwing an exception into (or closing) the awaited object
+        if agen.ag_await is not None:
+            return inspect.GEN_RUNNING
+        return inspect.GEN_CREATED
+    else:  # pragma: no cover
+        # The frame of a new generator stands before its first instruction
+        # (Python 3.10 and earlier) or at the one which created the generator.
+        lasti = frame.f_lasti
+        if lasti < 0 or frame.f_code.co_code[lasti] == _RETURN_GENERATOR:
+            return inspect.GEN_CREATED
+        return inspect.GEN_SUSPENDED
+
+
 def coro_is_new(coro: Suspendable) -> bool:
     """
     Returns True if the coroutine has just been created and
@@ -126,12 +161,7 @@ def coro_is_new(coro: Suspendable) -> bool:
     elif inspect.isgenerator(coro):
         return inspect.getgeneratorstate(coro) == inspect.GEN_CREATED
     elif inspect.isasyncgen(coro):
-        # async generators have an ag_await if they are suspended
-        # ag_running() means that it is inside an anext() or athrow()
-        # but it may be suspended.
-        return (
-            coro.ag_frame is not None and coro.ag_await is None and not coro.ag_running
-        )
+        return _asyncgen_state(coro) == inspect.GEN_CREATED
     else:
         raise TypeError(
             f"a coroutine or coroutine like object is required. Got: {type(coro)}"
@@ -147,7 +177,7 @@ def coro_is_suspended(coro: Suspendable) -> bool:
     elif inspect.isgenerator(coro):
         return inspect.getgeneratorstate(coro) == inspect.GEN_SUSPENDED
     elif inspect.isasyncgen(coro):
-        return coro.ag_await is not None
+        return _asyncgen_state(coro) == inspect.GEN_SUSPENDED
     else:
         raise TypeError(
             f"a coroutine or coroutine like object is required. Got: {type(coro)}"
